@@ -11,6 +11,7 @@ Small-scope exhaustive enumeration of (secret key, operation group, chain id).  
 """
 from __future__ import annotations
 
+import itertools
 import hashlib
 
 from mc.engine.report import Result
@@ -24,7 +25,8 @@ RULE = ('every (key, group, chain id) of the universe is signed once; distinct =
         'non-trivial = distinct cases with a non-Ed25519 key, or a consensus watermark, or a batch of two contents')
 BOUND = {
     'quick': '2 keys per curve (tz1..tz4) x {10 non-consensus kinds + endorsement (3 levels) + endorsement_with_slot, 9 same-pass '
-             'batches of 2}; chain id None or mainnet for non-consensus, {mainnet, 00000000} for consensus',
+             'batches of 2}; chain id None or mainnet for non-consensus, {mainnet, 00000000} for consensus; per curve one in-process sequence in '
+             'which the keys sign alternately (A B A B)',
     'thorough': '3 keys per curve (incl. order-1) x {up to 8 variants of each of the 10 non-consensus kinds, 4 consensus contents x 3 chain '
                 'ids, all 64 ordered manager-kind pairs + activate_account pair}; tz4 keys: 3 variants per kind and the 8 cyclic pairs',
 }
@@ -210,7 +212,17 @@ def shards(tier, seed):
             out += [(curve, ki, p, parts) for p in range(parts)]
     # interleave so that the slow BLS shards start early
     out.sort(key=lambda s: (s[0] != 'BL', s[2], s[0], s[1]))
+    # process history: the keys of one curve sign alternately (A B A B) inside one shard, whatever ran in this process before
+    out += [('hist', curve, 0, 1) for curve in CURVES]
     return out
+
+
+def hist_cases(tier, curve):
+    nkeys = 2 if tier == 'quick' else 3
+    per_key = [list(itertools.islice(all_cases(tier, curve, ki), 2)) for ki in range(nkeys)]
+    for rnd in (0, 1):
+        for cs in per_key:
+            yield cs[min(rnd, len(cs) - 1)]
 
 
 # ----------------------------------------------------------------------------- oracle
@@ -269,16 +281,18 @@ def run_shard(spec, tier):
     curve, ki, part, parts = spec
     r = Result()
     last = None
-    for i, case in enumerate(all_cases(tier, curve, ki)):
-        if i % parts != part:
-            continue
+    if curve == 'hist':
+        curve, source = ki, hist_cases(tier, ki)
+    else:
+        source = (case for i, case in enumerate(all_cases(tier, curve, ki)) if i % parts == part)
+    for case in source:
         last = case
         r.ev()
         vs, obs = run_case(case)
         kinds = [c['kind'] for c in case['group']['contents']]
         consensus = kinds[0] in CONSENSUS
         if curve != 'ed' or consensus or len(kinds) > 1:
-            r.nt((curve, ki, obs['forged'], case['chain_id'] if consensus else None))
+            r.nt((curve, case['key'], obs['forged'], case['chain_id'] if consensus else None))
         cls = 'consensus' if consensus else ('manager' if kinds[0] in c06.MANAGER else kinds[0])
         r.out(f'{TZ[curve]}/{cls}/{len(kinds)}: ' + ('signed, verified, hashed' if not vs else vs[0][0].split(': ', 1)[1]))
         for d, detail in vs:
